@@ -49,7 +49,7 @@ def merge_descriptor():
         node("When", "w4", matched=Const(True), then=node("Var", this=Const("delete"))),
         node("When", "w5", matched=Const(False), then=node("Insert", expression=node("Tuple", expressions=Lst([col("SRC", "X5"), ucol("Y5")])))),
     ])
-    t = node("Table", "TGT", this=ident("TGT"))
+    t = node("Table", "TGT", this=ident("TGT"), db=ident("S9"), catalog=ident("D9"))  # MERGE INTO d9.s9.tgt
     s = node("Table", "SRC", this=ident("SRC"))
     return node("Merge", "merge", this=t, using=s, on=on, expressions=whens)
 
@@ -141,7 +141,8 @@ def rule_ladders(ctx):
             # C12.c targets
             tabs = sqlt.from_tables(toks)
             first = ".".join(t.text for t in tabs[0]) if tabs else ""
-            ok_t = "TGT" in first and "SRC" not in first
+            # the whole (qualified) target: the rendered table node, or every part of its name
+            ok_t = ("sql(TGT)" in first or all(x in first for x in ("D9", "S9", "TGT"))) and "SRC" not in first
             others = [".".join(t.text for t in tb) for tb in tabs[1:]]
             ok_s = all("merge_candidates" in o.lower() or "TGT" in o for o in others)
             ctx.ob("C12.c", f"{kind} statement of clause {idx}: target is the MERGE target, source only via the helper table", ok_t and ok_s,
